@@ -11,6 +11,8 @@ is_assertable, interpreted over adversarial containers, admits nothing that does
 equal literal; every recorded ObjectAssertion holds a deep copy of the value.
 Whether `x == pytest.approx(nan)` holds, and name resolution of enum classes in the exported
 namespace, are not decided.
+Further clauses (added later): C20.nameable: isinstance assertions only for types that can be named in an
+expression; fields with non-identifier names are not followed.
 """
 
 from __future__ import annotations
